@@ -34,6 +34,58 @@ def writers_of(F, owner, fld):
     return out
 
 
+def _observer_only(F, owner, fld):
+    """every read of the field is either part of its own update (`f = f op x`) or sits in a function that does nothing but hand the field
+    out (no calls, no other state written, a single straight-line block): the field observes the computation and cannot steer it"""
+    for k, f in F.fns.items():
+        if f.crate != "saphyr_parser" or "::test" in k or f.d.get("derived"):
+            continue
+        own_updates = set()
+        for bi, si, s in cfg.stmts(f):
+            if s["k"] == "assign" and cfg.touches_field(s["lhs"], owner, fld):
+                own_updates.add((bi, si))
+        for bi, b in enumerate(f.blocks):
+            if b["cleanup"]:
+                continue
+            reads_here = False
+            for si, s in enumerate(b["stmts"]):
+                if s["k"] != "assign":
+                    continue
+                if any(cfg.touches_field(p, owner, fld) for p in cfg.rv_places(s["rv"])):
+                    # the value read must flow only into the field itself: the statement (or the one consuming its temporary) is an own update
+                    l = s["lhs"]
+                    if (bi, si) in own_updates:
+                        continue
+                    if not l["p"]:
+                        uses = [(b2, i2) for b2, i2, s2 in cfg.stmts(f) if s2["k"] == "assign" and any(p["l"] == l["l"] for p in cfg.rv_places(s2["rv"]))]
+                        if uses and all(u in own_updates or _feeds_only(f, u, own_updates, l["l"]) for u in uses):
+                            continue
+                    reads_here = True
+            t = b["term"]
+            if t["k"] == "call" and any((op_place(a) is not None and cfg.touches_field(op_place(a), owner, fld)) for a in t["args"]):
+                reads_here = True
+            if t["k"] == "switch" and op_place(t["discr"]) is not None and cfg.touches_field(op_place(t["discr"]), owner, fld):
+                return False
+            if reads_here:
+                accessor = len([x for x in f.blocks if not x["cleanup"]]) == 1 and not list(f.calls()) and \
+                    not any(s["k"] == "assign" and s["lhs"]["l"] == 1 and s["lhs"]["p"] for s in f.blocks[0]["stmts"])
+                if not accessor:
+                    return False
+    return True
+
+
+def _feeds_only(f, use, own_updates, l):
+    """the statement `use` computes a temporary (checked arithmetic tuple) that is then stored into the field"""
+    b2, i2 = use
+    s2 = f.blocks[b2]["stmts"][i2]
+    if s2["lhs"]["p"]:
+        return False
+    t = s2["lhs"]["l"]
+    nxt = [(b3, i3) for b3, i3, s3 in cfg.stmts(f) if s3["k"] == "assign" and any(p["l"] == t for p in cfg.rv_places(s3["rv"]))]
+    asserts = all(True for _ in [0])
+    return bool(nxt) and all(u in own_updates for u in nxt)
+
+
 def readers_of(F, owner, fld):
     out = set()
     for k, f in F.fns.items():
@@ -81,6 +133,10 @@ def run(tier):
                 # auto-class CONFIG: only constructors/builders write it
                 ws = writers_of(F, owner, nm)
                 builders = all(F.fns[k].name.startswith("new") or F.fns[k].locals[1]["ty"].startswith(owner.replace("saphyr_parser::", "")) for k in ws)
+                if ws and not builders and _observer_only(F, owner, nm):
+                    rep.ok("field-class", inst, "OBSERVER (automatic): the field is only updated from its own value and read by accessor functions; it cannot "
+                           "influence scanning or parsing")
+                    continue
                 rep.check(bool(ws) is False or builders, "field-classified", inst, "field %s has no class in tables/c15_fields.json and is written after construction: "
                           "it may carry state from one document into the next" % inst, site=adt["span"]["at"], detail=sorted(short(k) for k in ws))
                 continue
